@@ -1,6 +1,6 @@
 SPECIFICATION Spec
 CONSTANTS
-  NS = 2
+  NS = 3
   Topics = {"a", "b"}
   UserTypes = {"A"}
   BadTypes = {"X"}
